@@ -23,10 +23,11 @@ const (
 	FamHugeString
 	FamKeyed
 	FamDedup
+	FamBigMembers
 	famCount
 )
 
-var famNames = [...]string{"mixed", "dense-arrays", "dense-objects", "zeros", "strings", "numbers", "deep", "wide", "huge-string", "keyed", "dedup-stress"}
+var famNames = [...]string{"mixed", "dense-arrays", "dense-objects", "zeros", "strings", "numbers", "deep", "wide", "huge-string", "keyed", "dedup-stress", "big-members"}
 
 // siteKind classifies recorded token positions (targets for defects / faults).
 type siteKind uint8
@@ -524,6 +525,44 @@ func GenDoc(c *Chooser, spec DocSpec) Doc {
 		g.b.WriteString(`["x",`)
 		g.strN(spec.Target)
 		g.b.WriteString(`,1]`)
+	case FamBigMembers:
+		// an object whose members are big containers (a gap left by SetNull/DeleteElems on one of them is long)
+		g.b.WriteByte('{')
+		nm := 2 + c.Intn("bmn", 3)
+		for m := 0; m < nm; m++ {
+			if m > 0 {
+				g.b.WriteByte(',')
+			}
+			g.b.WriteString(`"m` + strconv.Itoa(m) + `":`)
+			limit := g.b.Len() + spec.Target/nm
+			kind := c.Intn("bmk", 4)
+			if kind == 3 {
+				g.b.WriteByte('{')
+			} else {
+				g.b.WriteByte('[')
+			}
+			for i := 0; g.b.Len() < limit; i++ {
+				if i > 0 {
+					g.b.WriteByte(',')
+				}
+				switch kind {
+				case 0:
+					g.b.WriteString(strconv.Itoa(i))
+				case 1:
+					g.b.WriteString("true")
+				case 2:
+					g.strN(c.Intn("bms", 5))
+				case 3:
+					g.b.WriteString(`"k` + strconv.Itoa(i) + `":` + strconv.Itoa(i%7))
+				}
+			}
+			if kind == 3 {
+				g.b.WriteByte('}')
+			} else {
+				g.b.WriteByte(']')
+			}
+		}
+		g.b.WriteString(`,"tail":"x"}`)
 	case FamDedup:
 		// strings that are runs of one character in many different lengths (plus repeats): every window of the
 		// serializer's dedup buffer looks alike, so colliding hash buckets and stale buffer content matter
